@@ -259,7 +259,10 @@ class MultiPaxosNode(Entity):
             }
         )
 
-        if len(self._phase1_responses[ballot_number]) >= self.quorum_size:
+        # Take over exactly once per ballot, when the quorum is first reached; a
+        # later promise must not re-run the takeover (it would re-send Accepts and
+        # the duplicate Accepted answers would be counted as extra acceptors).
+        if len(self._phase1_responses[ballot_number]) == self.quorum_size:
             return self._become_leader()
         return []
 
